@@ -475,10 +475,42 @@ fn case<S: ShortGroupSignatureScheme>(v: &Value) -> Value {
                     };
                     q.disclosed_messages.get_mut(sid).unwrap().insert(label.clone(), newc);
                     results.push(json!({"path": format!("disclosed/{sid}/{label}"), "kind": "value", "out": verdict(&q, &w.schema, &w.nonce)}));
+                    // every non-numeric leaf of the reported claim as well: the text / bytes flag of a hashed claim
+                    if let ClaimData::Hashed(h) = claim {
+                        let mut q = p.clone();
+                        let mut h2 = h.clone();
+                        h2.print_friendly = !h2.print_friendly;
+                        q.disclosed_messages.get_mut(sid).unwrap().insert(label.clone(), h2.into());
+                        results.push(json!({"path": format!("disclosed/{sid}/{label}"), "kind": "print-friendly-flag", "out": verdict(&q, &w.schema, &w.nonce)}));
+                    }
                     let mut q = p.clone();
                     let c = q.disclosed_messages.get_mut(sid).unwrap().shift_remove(label).unwrap();
                     q.disclosed_messages.get_mut(sid).unwrap().insert(format!("{label}x"), c);
                     results.push(json!({"path": format!("disclosed/{sid}/{label}"), "kind": "label", "out": verdict(&q, &w.schema, &w.nonce)}));
+                }
+            }
+            // debugging aid for a reported byte position: every bit of a range, with the JSON leaves that changed
+            if let (Some(a), Ok(bytes)) = (v["action"]["scan_from"].as_u64(), serde_bare::to_vec(&p)) {
+                let b_end = (v["action"]["scan_to"].as_u64().unwrap_or(a + 1) as usize).min(bytes.len());
+                let orig = serde_json::to_value(&p).unwrap_or(Value::Null);
+                let mut lo = vec![];
+                leaves(&orig, &mut vec![], &mut lo);
+                for pos in (a as usize)..b_end {
+                    for bit in 0..8 {
+                        let mut b2 = bytes.clone();
+                        b2[pos] ^= 1 << bit;
+                        if let Ok(Ok(q)) = catch_unwind(AssertUnwindSafe(|| serde_bare::from_slice::<Presentation<S>>(&b2))) {
+                            let same = serde_bare::to_vec(&q).map(|b3| b3 == bytes).unwrap_or(false);
+                            let out = if same { "same-object" } else { verdict(&q, &w.schema, &w.nonce) };
+                            if out == "ok" {
+                                let nv = serde_json::to_value(&q).unwrap_or(Value::Null);
+                                let mut ln = vec![];
+                                leaves(&nv, &mut vec![], &mut ln);
+                                let changed: Vec<String> = lo.iter().zip(ln.iter()).filter(|(x, y)| x != y).map(|(x, y)| format!("{}: {} -> {}", x.0.join("/"), x.1, y.1)).take(4).collect();
+                                results.push(json!({"path": format!("bare[{pos}] bit {bit}"), "kind": "scan", "out": out, "changed": changed, "nleaves": [lo.len(), ln.len()]}));
+                            }
+                        }
+                    }
                 }
             }
             // binary encoding: single-byte and single-bit changes of the BARE bytes
